@@ -168,6 +168,14 @@ def run(pid, tier, replay_file=None):
                                           for s, x in ob["dobs"]) + ">>"
                     add_event(si, vi, '[id |-> @ID@, p |-> "C05", doc |-> %s, v |-> %s, kind |-> "ok", out |-> %s, dobs |-> %s]'
                               % (doc_tla(), tlajson_to_tla(tagged_values[vi]), _out(o), dl))
+                # the same declarations entered with properties.update(...)
+                uo = ob["upd_calls"][vi] if ob.get("upd_calls") else None
+                if uo is not None and uo["kind"] == "ok" and not (
+                        o["kind"] == "ok" and codec.norm_real(uo["out"]) == codec.norm_real(o["out"])):
+                    dl = "<<" + ", ".join("<<%s, %s>>" % (codec.tla_str(s), obs_to_tla(x))
+                                          for s, x in ob["dobs"]) + ">>"
+                    add_event(si, ("upd", vi), '[id |-> @ID@, p |-> "C05", doc |-> %s, v |-> %s, kind |-> "ok", out |-> %s, dobs |-> %s]'
+                              % (doc_tla(), tlajson_to_tla(tagged_values[vi]), _out(uo), dl))
             elif pid == "C10":
                 if o["kind"] not in ("ok", "reject"):
                     add_event(si, vi, '[id |-> @ID@, p |-> "C10", kind |-> %s]' % codec.tla_str(o["kind"]))
@@ -192,8 +200,19 @@ def run(pid, tier, replay_file=None):
             else:
                 drift["np"] += 1
                 dc = ob["dconv"] or {"kind": "reject", "out": None}
+                try:
+                    edef_t = codec.py_to_tla(ob["edef"])
+                except ValueError:
+                    # the element's `default` attribute (a JSON value of the document) holds objects
+                    # that are not JSON after the calls: the declared default itself was converted
+                    rep.violation(("C05np", "default-attribute-altered", _kwsig(st["doc"])),
+                                  "after calling the element its `default` attribute is no longer the JSON value "
+                                  "the document declares (it holds converted objects): "
+                                  + json.dumps(codec.schema_to_json(st["doc"]))[:200] + " -> " + repr(ob["edef"])[:160],
+                                  dict(state=st, tag="np"))
+                    continue
                 add_event(si, "np", '[id |-> @ID@, p |-> "C05np", doc |-> %s, edef |-> %s, np |-> %s, dconv |-> %s]'
-                          % (doc_tla(), codec.py_to_tla(ob["edef"]), obs_to_tla(ob["np"]), obs_to_tla(dc)))
+                          % (doc_tla(), edef_t, obs_to_tla(ob["np"]), obs_to_tla(dc)))
         if pid == "C10":
             k = ob["np"]["kind"]
             if k not in ("ok", "reject"):
@@ -268,7 +287,13 @@ def run(pid, tier, replay_file=None):
                               f"{json.dumps(pyvals[tag])[:80]}", dict(schema=d, value_index=tag))
                 continue
             st, ob = states[si], observations[si]
-            if isinstance(tag, tuple) and tag[0] == "sub":
+            if isinstance(tag, tuple) and tag[0] == "upd":
+                o = ob["upd_calls"][tag[1]]
+                rep.violation((pid + "-update", _kwsig(st["doc"])),
+                              f"observation rejected by R_{pid}: the declarations of "
+                              f"{json.dumps(codec.schema_to_json(st['doc']))[:160]} entered with properties.update(...) build from "
+                              f"{json.dumps(pyvals[tag[1]])[:80]}: {_short(o)}", _payload(st, tag[1], o))
+            elif isinstance(tag, tuple) and tag[0] == "sub":
                 o = ob["sub_calls"][tag[1]]
                 rep.violation((pid + "-subclass", _kwsig(st["doc"])),
                               f"observation rejected by R_{pid}: a subclass adding nothing to the class parsed from "
